@@ -20,6 +20,7 @@ from vlib import *
 import modgen, widegen
 import c10_regions
 import c10_refs
+import c10_partial, c10_strlit
 
 STRICT = "-std=c99 -Wall -Werror=implicit-function-declaration -Werror=incompatible-pointer-types"
 ALL_OPTS = ["-fcompound-names", "-fwide-types", "-findirect-choice", "-fno-constraints", "-no-gen-PER", "-no-gen-OER", "-fincludes-quoted"]
@@ -239,6 +240,8 @@ def corpus(rng, tier):
     mods += special_modules()
     mods += c10_regions.regions(rng, tier)
     mods += c10_refs.ref_modules(rng, tier)      # round 3: type references as a swept dimension
+    mods += c10_partial.partial_modules(rng, tier)    # round 4: exactly one emission unit fails in the emitter
+    mods += c10_strlit.strlit_modules(rng, tier)      # round 4: octet content of string literals
     mods += invalid_modules()
     k = 0
     for i in range(ninj * 3):
@@ -364,7 +367,10 @@ def run_asn1c(asn1c, skel, mod, opts, d):
     os.makedirs(d, exist_ok=True)
     files = mod.get("files") or [(mod["name"] + ".asn1", mod["text"])]
     for fn, text in files:              # several input files: named on the command line in the order of the list
-        open(os.path.join(d, fn), "w").write(text)
+        if mod.get("latin1"):           # round 4: a text over U+0000..U+00FF, one octet per character
+            open(os.path.join(d, fn), "wb").write(text.encode("latin-1"))
+        else:
+            open(os.path.join(d, fn), "w").write(text)
     rc, out, err = run([asn1c, "-S", skel, "-pdu=all"] + list(opts) + [fn for fn, _ in files], d, timeout=120)
     return rc, out, err
 
@@ -473,6 +479,84 @@ def site_types(d, mod):
     return out
 
 
+# ------------------------------------------------------------------ round 4: oracles on the C output alone
+ERROR_DIRECTIVE = re.compile(r"^[ \t]*#[ \t]*error\b.*$", flags=re.M)
+
+
+def fatal_oracle(d, stderr, skel):
+    """the clause "if it cannot handle the module it prints a diagnostic AND exits non-zero", read backwards: what asn1c
+    itself calls fatal (a `FATAL:` line on stderr) or leaves as an `#error` directive in a file it GENERATED (a file whose
+    name is not a skeleton's: converter-example.c carries an #error of its own) must not come with exit status 0.
+    -> ([FATAL lines], [file: #error line])"""
+    fat = [l[:240] for l in stderr.split("\n") if l.startswith("FATAL:")]
+    errs = []
+    for f in sorted(os.listdir(d)):
+        if not (f.endswith(".c") or f.endswith(".h")) or os.path.exists(os.path.join(skel, f)):
+            continue
+        try:
+            txt = open(os.path.join(d, f), errors="replace").read()
+        except OSError:
+            continue
+        if "error" in txt:
+            errs += ["%s: %s" % (f, m.group(0).strip()[:200]) for m in ERROR_DIRECTIVE.finditer(txt)]
+    return fat[:12], errs[:12]
+
+
+def admitted_units(e):
+    """the set of unit values 0..256 (256 = "anything above an octet") the parsed checker admits, or None"""
+    if e["mode"] == "TABLE":
+        cells = e["cells"]
+        return {c for c in range(min(len(cells), e["size"])) if cells[c]}
+    if e["mode"] == "RANGE":
+        if e["text"] == "-":
+            return set(range(257))
+        out = set()
+        for part in e["text"].split("|"):
+            f = part.split(":")
+            try:
+                if f[0] == "bt":
+                    out |= {c for c in range(257) if int(f[1]) <= c <= int(f[2])}
+                elif f[0] == "eq":
+                    out |= {c for c in range(257) if c == int(f[1])}
+                elif f[0] == "le":
+                    out |= {c for c in range(257) if c <= int(f[1])}
+                elif f[0] == "ge":
+                    out |= {c for c in range(257) if c >= int(f[1])}
+                else:
+                    return None
+            except (ValueError, IndexError):
+                return None
+        return out
+    return None
+
+
+def alphabet_oracle(d, mod):
+    """-> [(c file, function, mode, problem or None)]: the units admitted by the emitted permitted-alphabet checker of every
+    site of the module against the set of octets of the literal the generator wrote (no model involved)"""
+    import c08_alpha
+    out = []
+    for stem, fn, octs in mod.get("alpha_sites", []):
+        e = c08_alpha.parse_emitted(os.path.join(d, stem + ".c"), fn)
+        got = admitted_units(e)
+        if got is not None and e.get("unit") == "1":
+            got.discard(256)                      # the unit is an octet: nothing above 0xff exists
+        prob = None
+        if e["mode"] in ("UTF8LEN", "NONE"):
+            pass                                  # no alphabet code emitted (C08's ground: C08-utf8-from-unchecked)
+        elif got is None:
+            prob = "checker not understood (%s %s)" % (e["mode"], e.get("why") or e.get("text"))
+        elif got != set(octs):
+            prob = "admits %s, the literal denotes %s" % (fmt_set(got), fmt_set(octs))
+        elif e["mode"] == "TABLE" and (len(e["cells"]) > e["size"] or len(e["cells"]) % 16):
+            prob = "%d cells printed into an array of %d" % (len(e["cells"]), e["size"])
+        out.append((stem + ".c", fn, e["mode"], prob))
+    return out
+
+
+def fmt_set(s):
+    return "{" + ",".join("0x%02x" % c if c < 256 else ">0xff" for c in sorted(s)[:24]) + (",..." if len(s) > 24 else "") + "}"
+
+
 def build_job(job):
     try:
         return build_job1(job)
@@ -488,7 +572,13 @@ def build_job1(job):
     t0 = time.time()
     rc, out, err = run_asn1c(job["asn1c"], job["skel"], mod, opts, d)
     job.update(rc=rc, stdout=out[-3000:], stderr=err[-3000:], t_asn1c=time.time() - t0)
+    if mod.get("partial"):
+        job["cannot_compile"] = c10_partial.cannot_compile_lines(err)
+        job["name_clash"] = "name clashes" in err
     if rc == 0:
+        job["fatal_lines"], job["error_directives"] = fatal_oracle(d, err, job["skel"])
+        if mod.get("alpha_sites") and "-fno-constraints" not in opts:
+            job["alpha"] = alphabet_oracle(d, mod)
         job["stems"], job["fileset"] = fileset_oracle(d, err, job["skel"])
         if mod.get("sites"):
             job["site_types"] = site_types(d, mod)
